@@ -31,18 +31,27 @@ const rule = "generated scenario (%s) on the real app in virtual time; per (grou
 func nt(c map[string]int64) bool { return c["notifications_judged"] >= 2 }
 
 func TestTimers(t *testing.T) {
+	if vf.RaceEnabled {
+		t.Skip("race pass: only the parallel-flush family")
+	}
 	sub := vf.Cur().Sub("timers", fmt.Sprintf(rule, "all group_wait/group_interval/repeat_interval combinations incl. repeat<group_interval, long virtual time up to 20 h, notification-log GC and maintenance snapshots"), 20)
 	sysrun.Run(t, "C04", sub, sysrun.Family{Name: "timers", Quick: 100, Thorough: 5000, NonTrivial: nt,
 		Opt: scen.GenOpt{Horizon: 20 * time.Hour, Depth: 2, Fanout: 2, LongRepeat: true, MaxLabelSets: 4}}, checkers(0))
 }
 
 func TestSuppressionAndFaults(t *testing.T) {
+	if vf.RaceEnabled {
+		t.Skip("race pass: only the parallel-flush family")
+	}
 	sub := vf.Cur().Sub("suppression-faults", fmt.Sprintf(rule, "silences, inhibition, time intervals, receiver faults, several integrations"), 20)
 	sysrun.Run(t, "C04", sub, sysrun.Family{Name: "supp", Quick: 100, Thorough: 5000, NonTrivial: nt,
 		Opt: scen.GenOpt{Horizon: 4 * time.Hour, Depth: 2, Fanout: 2, Silences: true, Inhibit: true, Intervals: true, Faults: true, MultiInteg: true, Probes: true}}, checkers(0))
 }
 
 func TestReloadsRestarts(t *testing.T) {
+	if vf.RaceEnabled {
+		t.Skip("race pass: only the parallel-flush family")
+	}
 	sub := vf.Cur().Sub("reloads-restarts", fmt.Sprintf(rule, "config reloads (dispatcher restarts), instance restarts with/without snapshot"), 20)
 	sysrun.Run(t, "C04", sub, sysrun.Family{Name: "reload", Quick: 100, Thorough: 5000, NonTrivial: nt,
 		Opt: scen.GenOpt{Horizon: 4 * time.Hour, Depth: 2, Fanout: 2, Reloads: true, Restarts: true, Silences: true}}, checkers(0))
@@ -72,6 +81,9 @@ func reloadChangesRepeat(r *rand.Rand) *scen.Scenario {
 }
 
 func TestReloadChangesRepeat(t *testing.T) {
+	if vf.RaceEnabled {
+		t.Skip("race pass: only the parallel-flush family")
+	}
 	sub := vf.Cur().Sub("reload-changes-repeat", fmt.Sprintf(rule, "targeted: one continuously firing group, a reload that only changes repeat_interval (4h/1h -> 10m/30m/2h), 14 h of virtual time"), 10)
 	sysrun.Run(t, "C04", sub, sysrun.Family{Name: "rcr", Quick: 40, Thorough: 1500, NonTrivial: nt, Gen: reloadChangesRepeat}, checkers(0))
 }
@@ -140,6 +152,9 @@ func slowDeliveries(r *rand.Rand) *scen.Scenario {
 }
 
 func TestSlowDeliveries(t *testing.T) {
+	if vf.RaceEnabled {
+		t.Skip("race pass: only the parallel-flush family")
+	}
 	sub := vf.Cur().Sub("slow-deliveries", fmt.Sprintf(rule, "targeted: every delivery takes longer than group_interval (2-5 s, below the 10 s minimum pipeline time-out), so flush ticks are older than the log entry of the previous delivery; in half of the cases a reload stops the dispatcher in the middle of the first delivery, which still completes successfully; the unchanged group must not be notified again"), 8)
 	sysrun.Run(t, "C04", sub, sysrun.Family{Name: "slowd", Quick: 30, Thorough: 1500, NonTrivial: func(c map[string]int64) bool { return c["notifications_judged"] >= 1 }, Gen: slowDeliveries}, checkers(0))
 }
